@@ -148,6 +148,7 @@ pub struct Stats {
     pub stress_convs: AtomicU64,
     pub clone_froms: AtomicU64,
     pub band_checks: AtomicU64,
+    pub churns: AtomicU64,
     pub label_checks: AtomicU64,
     pub mutations: AtomicU64,
     pub reads: AtomicU64,
@@ -814,16 +815,49 @@ impl Ctx<'_> {
             Owned::Hsl(r) => r.into_data(),
             _ => return,
         };
-        let res = catch_unwind(AssertUnwindSafe(|| float_obj(*class, &bits_of(&data), *w, *h, *t, *p)));
+        // the vector itself goes back in: its allocation is now owned by the new image alone
+        let res = catch_unwind(AssertUnwindSafe(|| float_obj_from_vec(*class, data, *w, *h, *t, *p)));
         match res {
             Ok(Ok(obj)) => {
                 if obj.val() != *e.val {
                     self.w.violate("I5", "C12", format!("I5:rewrap:{}", class_name(*class)), "into_data() + new() does not reproduce the image".into(), seq, self.tid);
                 }
+                // after an ownership hand-over, provoke reuse of same-sized storage through the
+                // library: whoever still believes it owns that buffer will scribble on it now
+                if op.dataseed % 2 == 0 && *w > 0 && *h > 0 && *w * *h <= 4096 {
+                    let _ = catch_unwind(AssertUnwindSafe(|| churn_same_size(*w, *h, op.dataseed)));
+                    self.w.stats.churns.fetch_add(1, Ordering::Relaxed);
+                    if obj.val() != *e.val {
+                        self.w.violate(
+                            "I2",
+                            "C11,C12",
+                            format!("I2:retained-after-churn:{}", class_name(*class)),
+                            format!("an image re-wrapped from into_data() changed its samples when other images of the same size were converted right afterwards (slot {})", op.slot),
+                            seq,
+                            self.tid,
+                        );
+                    }
+                }
                 self.w.put(op.slot, Entry { obj, val: e.val, phys: None });
             }
             Ok(Err(err)) => self.w.violate("I5", "C12", format!("I5:rewrap-rejected:{}", class_name(*class)), format!("into_data() of an accepted image was rejected by new(): {err:?}"), seq, self.tid),
             Err(_) => {}
+        }
+    }
+}
+
+/// A decode and an encode of an unrelated w x h image (8-bit 4:4:4 BT.709): two library calls that
+/// need w*h-pixel working storage.
+fn churn_same_size(w: usize, h: usize, seed: u64) {
+    let mut op = Op::blank(Kind::NewYuv);
+    op.geo[..10].copy_from_slice(&[w as u64, h as u64, w as u64, h as u64, 0, 0, w as u64, h as u64, 0, 0]);
+    op.cfg = CfgI { bd: 8, ssx: 0, ssy: 0, full: 0, mc: 1, tc: 1, cp: 1 };
+    op.dataseed = seed ^ 0xc4u64;
+    op.datamode = 1;
+    if let Ok(y) = Yuv::<u8>::new(build_frame::<u8>(&op), op.cfg.to_cfg()) {
+        if let Ok(rgb) = Rgb::try_from(&y) {
+            let _ = Yuv::<u8>::try_from((&rgb, op.cfg.to_cfg()));
+            let _ = LinearRgb::try_from(rgb);
         }
     }
 }
